@@ -243,11 +243,13 @@ var xmlCorpus = []string{
 	`<m at="q&quot;">hello<k>1</k></m>`,
 	`<p><!-- c --><?pi x?><q a="1" b="2">z</q><q>y</q></p>`,
 	`<x-y A-b="1"><Sub-El>v</Sub-El><e>false</e></x-y>`,
+	`<g><e></e><f/><h a=""/><i> </i></g>`,
 }
 
 var jsonCorpus = []string{
 	`{"a":1.0,"b":[1e3,"x",null],"c":{"d":123456789012345678}}`,
 	`[{"k":2.50}]`,
+	`{"Up-Key":" padded ","-attr":"x","#text":"t","_seq":1,"n":[" a ", true, 1e2]}`,
 }
 
 func fixedMaps() []mxj.Map {
@@ -429,7 +431,7 @@ var families = []family{
 		}
 		return b.String()
 	}},
-	{"key/path queries and updates", func(m *optModel) string {
+	{"sub-key queries, updates, Elements/Attributes", func(m *optModel) string {
 		return fmt.Sprintf("attr=%q sep=%q", m.AttrPrefix, m.FieldSep)
 	}, func() string {
 		var b strings.Builder
@@ -441,19 +443,28 @@ var families = []family{
 			b.WriteString(hres(v, err))
 			v, err = m.ValuesForKey("item", "!v:a", "-id:*")
 			b.WriteString(hres(v, err))
-			v, err = m.ValuesForPath("list.item[1]")
-			b.WriteString(hres(v, err))
-			b.WriteString(hres(sortedStrs(m.PathsForKey("-k")), m.PathForKeyShortest("v")))
 			e, err := m.Elements("doc")
 			b.WriteString(hres(e, err))
 			e, err = m.Attributes("doc")
 			b.WriteString(hres(e, err))
-			ok, err := m.Exists("b.c")
-			b.WriteString(hres(ok, err))
 			n, err := m.UpdateValuesForPath("v:new", "list.item", "-id:1")
 			b.WriteString(hres(n, err, map[string]interface{}(m)))
 			n, err = m.UpdateValuesForPath("c|7|num", "b")
 			b.WriteString(hres(n, err, map[string]interface{}(m)))
+		}
+		return b.String()
+	}},
+	// plain path/key queries and NewMap take no sub-keys: per the documentation NO option reaches
+	// them (NewMap's "old:new" pairs always use ':'; the result buffer size is not observable)
+	{"plain path/key queries and NewMap", func(m *optModel) string { return "" }, func() string {
+		var b strings.Builder
+		for _, m0 := range append(fixedMaps(), wideMap()) {
+			m := mxj.Map(DeepCopy(map[string]interface{}(m0)).(map[string]interface{}))
+			v, err := m.ValuesForPath("list.item[1]")
+			b.WriteString(hres(v, err))
+			b.WriteString(hres(sortedStrs(m.PathsForKey("-k")), m.PathForKeyShortest("v")))
+			ok, err := m.Exists("b.c")
+			b.WriteString(hres(ok, err))
 			nm, err := m.NewMap("list.item:x.y", "a:z")
 			b.WriteString(hres(nm, err))
 			v, err = m.ValuesForPath("rows[1].cells.0")
@@ -468,9 +479,26 @@ var families = []family{
 			b.WriteString(hres(ok, err))
 			nm, err = m.NewMap("rows[1].cells.0:first", "Up-Key.0:n")
 			b.WriteString(hres(nm, err))
+			v, err = m.ValuesForKey("w")
+			b.WriteString(hres(len(v), v, err))
+			v, err = m.ValuesForPath("wide.w")
+			b.WriteString(hres(len(v), v, err))
+			v, err = m.ValuesForPath("wide.*")
+			b.WriteString(hres(len(v), err))
+			s, err := m.ValueForPathString("wide.w[39]")
+			b.WriteString(hres(s, err))
 		}
 		return b.String()
 	}},
+}
+
+// wideMap has more members than any SetArraySize value below 64 and more than the default 32.
+func wideMap() mxj.Map {
+	l := make([]interface{}, 45)
+	for i := range l {
+		l[i] = fmt.Sprintf(" v%02d ", i)
+	}
+	return mxj.Map{"wide": map[string]interface{}{"w": l, "x": " pad "}}
 }
 
 func sortedStrs(s []string) []string {
@@ -725,7 +753,7 @@ func init() {
 		},
 		Init: initC18,
 		Run:  runC18,
-		Rule: "each case = a seeded history of 1..40 option-setter calls (all 21 setters, explicit / argument-less / repeated forms, attribute prefixes, single-character key prefixes, both escaping switches in either order) interleaved with probe steps and ended by restoring every default explicitly; after a probe step every one of 11 probe families (XML decode with and without cast, cast of integer literals, sequence decode with and without cast, JSON decode, XML encode, sequence encode, JSON encode/Copy, leaf queries, key/path queries and updates; fixed corpus) is executed and its output hash is compared with the hash recorded for the same (family, model state projected on the options the family may depend on per the documentation); the table starts with the hashes of a fresh process. Non-trivial = at least two setter calls followed by a probe; distinct = distinct histories.",
+		Rule: "each case = a seeded history of 1..40 option-setter calls (all 21 setters, explicit / argument-less / repeated forms, attribute prefixes, single-character key prefixes, both escaping switches in either order) interleaved with probe steps and ended by restoring every default explicitly; after a probe step every one of 12 probe families (XML decode with and without cast, cast of integer literals, sequence decode with and without cast, JSON decode, XML encode, sequence encode, JSON encode/Copy, leaf queries, sub-key queries and updates, plain path/key queries and NewMap; fixed corpus) is executed and its output hash is compared with the hash recorded for the same (family, model state projected on the options the family may depend on per the documentation); the table starts with the hashes of a fresh process. Non-trivial = at least two setter calls followed by a probe; distinct = distinct histories.",
 		Assumptions: []string{
 			"the option model and the dependency matrix are my reading of the setters' doc comments (DESIGN.md §3 C18)",
 			"histories stay in the property's domain: attribute prefix distinct from the global key prefix; key prefixes are single punctuation characters",
